@@ -3,6 +3,7 @@ package all
 
 import (
 	_ "verif/worlds/iso"
+	_ "verif/worlds/join"
 	_ "verif/worlds/reg"
 	_ "verif/worlds/smoke"
 )
